@@ -600,6 +600,12 @@ class System:
                         comp._component_type.name
                     )
                 )
+        # parent references held by the childs (PMux input order) follow the new name
+        for c in self._g.successor_indices(eidx):
+            self._g.attrs["pnames"][c] = [
+                comp._params["name"] if self._get_index(p) == eidx else p
+                for p in self._g.attrs["pnames"][c]
+            ]
         self._g[eidx] = comp
         # replace node name in graph dict
         del [self._g.attrs["nodes"][name]]
